@@ -1681,6 +1681,11 @@ func (v *VMValue) AsDictKey() (string, error) {
 }
 
 func ValueEqual(a *VMValue, b *VMValue, autoConvert bool) bool {
+	return valueEqualRaw(a, b, autoConvert, nil)
+}
+
+// valueEqualRaw visiting 记录正在比较中的容器对：含有自身的数组/字典再次遇到同一对时视为相等，不再深入
+func valueEqualRaw(a *VMValue, b *VMValue, autoConvert bool, visiting map[[2]any]bool) bool {
 	if a == b {
 		return true
 	}
@@ -1689,6 +1694,16 @@ func ValueEqual(a *VMValue, b *VMValue, autoConvert bool) bool {
 	}
 
 	if a.TypeId == b.TypeId {
+		if a.TypeId == VMTypeArray || a.TypeId == VMTypeDict {
+			pair := [2]any{a.Value, b.Value}
+			if visiting[pair] {
+				return true
+			}
+			if visiting == nil {
+				visiting = map[[2]any]bool{}
+			}
+			visiting[pair] = true
+		}
 		switch a.TypeId {
 		case VMTypeArray:
 			arr1, _ := a.ReadArray()
@@ -1697,7 +1712,7 @@ func ValueEqual(a *VMValue, b *VMValue, autoConvert bool) bool {
 				return false
 			}
 			for index, i := range arr1.List {
-				if !ValueEqual(i, arr2.List[index], autoConvert) {
+				if !valueEqualRaw(i, arr2.List[index], autoConvert, visiting) {
 					return false
 				}
 			}
@@ -1710,7 +1725,7 @@ func ValueEqual(a *VMValue, b *VMValue, autoConvert bool) bool {
 			}
 			isSame := true
 			d1.Dict.Range(func(key string, value *VMValue) bool {
-				isEqual := ValueEqual(value, d2.Dict.MustLoad(key), autoConvert)
+				isEqual := valueEqualRaw(value, d2.Dict.MustLoad(key), autoConvert, visiting)
 				if !isEqual {
 					isSame = false
 					return false
